@@ -176,3 +176,144 @@ Definition run (cs : list case) : list (N * N * N) :=
     (fun c => obs_eqb (model (c_in c)) (c_obs c))
     (fun c => negb (wf (c_in c)) || spec_ok (c_in c) (c_obs c))
     (fun _ => 0%N) cs.
+
+(* ====================================================================== *)
+(* The FULL model (added by the theorem audit, docs/audit/C05.md).
+
+   [model] above abstracts four things away that the property quantifies over
+   or that the anchored code decides itself:
+     - the OCSP/CRL/fallback method annotation and the per-server results of
+       every CertRevocationResult (no input of [model] at all),
+     - an error returned TOGETHER with a result vector (collapsed into [VErr]),
+     - the VALUE of the signing time handed to the validator (only zero / non-zero),
+     - answers outside the one-result-per-certificate contract (excluded by [wf]):
+       a shorter vector is aggregated as it is, a longer one makes
+       revocationFinalResult index certChain out of range (run-time panic),
+     - the verifier whose two validator fields are both nil.
+   [xmodel] takes all of this as input and mirrors verifyRevocation statement by
+   statement. The aggregation itself is the same [final_result] / [classify].
+   The harness (vh-c05) emits [xcase]s; [model] is a proven projection of
+   [xmodel] (C05_Full.xmodel_refines_model). *)
+
+(* one *result.CertRevocationResult as the validator returns it *)
+Record certres := mk_cr {
+  cr_result : rres;
+  cr_method : N;                   (* RevocationMethod: 0 unknown, 1 OCSP, 2 CRL, 3 OCSPFallbackCRL, other values *)
+  cr_servers : list (N * bool) }.  (* ServerResults: (RevocationMethod, Error != nil) *)
+
+Record xinput := mk_xinput {
+  x_action : action;          (* action of the revocation type in the level *)
+  x_sa : bool;                (* signing scheme is notary.x509.signingAuthority *)
+  x_val : N;                  (* 1 context-aware validator supplied, 2 deprecated client, 3 both,
+                                 0 none (the constructor installs the library default; not instrumented),
+                                 4 a verifier whose revocationCodeSigningValidator and revocationClient
+                                   are both nil (no public constructor produces it) *)
+  x_stime : option Z;         (* signing time in the signed attributes, unix seconds; None = zero time.Time.
+                                 For signingAuthority this is what SignerInfo.AuthenticSigningTime() yields *)
+  x_chain : list string;      (* subjects of the signing chain, leaf first *)
+  x_err : bool;               (* the validator returned a non-nil error ... *)
+  x_results : list certres }. (* ... and this result slice (nil = []) *)
+
+Record xcall := mk_xcall {
+  xk_which : N;               (* 1 = ValidateContext, 2 = deprecated Validate *)
+  xk_chain : list string;
+  xk_time : option Z }.       (* AuthenticSigningTime / signingTime argument; None = zero *)
+
+Record xobs := mk_xobs {
+  xo_calls : list xcall;
+  xo_result : option rclass;  (* revocation entry of the outcome; None = no entry *)
+  xo_rejected : bool;         (* Verify returned an error *)
+  xo_panic : bool }.          (* Verify did not return: run-time panic (index out of range) *)
+
+Definition enforce_fails (a : action) (c : rclass) : bool :=
+  match a with Enforce => is_failure c | _ => false end.
+
+Definition xresults (x : xinput) : list rres := map cr_result (x_results x).
+
+(* the time verifyRevocation computes: AuthenticSigningTime() only under signingAuthority *)
+Definition xtime (x : xinput) : option Z := if x_sa x then x_stime x else None.
+
+Definition xmodel (x : xinput) : xobs :=
+  match x_action x with
+  | Skip => mk_xobs [] None false false          (* processSignature: the step is not entered *)
+  | a =>
+      (* if v.revocationCodeSigningValidator == nil && v.revocationClient == nil *)
+      if (x_val x =? 4)%N then
+        mk_xobs [] (Some Inconclusive) (enforce_fails a Inconclusive) false
+      else
+        let calls :=
+          match x_val x with
+          | 0%N => []
+          | 2%N => [mk_xcall 2 (x_chain x) (xtime x)]
+          | _ => [mk_xcall 1 (x_chain x) (xtime x)]
+          end in
+        (* if err != nil *)
+        if x_err x then
+          mk_xobs calls (Some Inconclusive) (enforce_fails a Inconclusive) false
+        (* revocationFinalResult: i := len(certResults)-1; cert := certChain[i] *)
+        else if Nat.ltb (List.length (x_chain x)) (List.length (x_results x)) then
+          mk_xobs calls None false true
+        else
+          let res := classify (final_result (xresults x) (x_chain x)) in
+          mk_xobs calls (Some res) (enforce_fails a res) false
+  end.
+
+(* the revocation.Validator contract as notation-core-go implements it: one result per certificate *)
+Definition xwf (x : xinput) : bool :=
+  x_err x || Nat.eqb (List.length (x_results x)) (List.length (x_chain x)).
+
+Definition optz_eqb (a b : option Z) : bool := opt_eqb Z.eqb a b.
+
+Definition xcall_eqb (a b : xcall) : bool :=
+  (xk_which a =? xk_which b)%N && list_eqb String.eqb (xk_chain a) (xk_chain b)
+  && optz_eqb (xk_time a) (xk_time b).
+
+Definition xobs_eqb (a b : xobs) : bool :=
+  list_eqb xcall_eqb (xo_calls a) (xo_calls b)
+  && opt_eqb rclass_eqb (xo_result a) (xo_result b)
+  && Bool.eqb (xo_rejected a) (xo_rejected b)
+  && Bool.eqb (xo_panic a) (xo_panic b).
+
+(* ---------- the property oracle on the implementation's observations (does not call [xmodel]) ---------- *)
+Definition xresult_ok (x : xinput) (c : rclass) : bool :=
+  if (x_val x =? 4)%N || x_err x then match c with Inconclusive => true | _ => false end
+  else
+    let rs := xresults x in
+    if forallb is_ok rs then match c with Pass => true | _ => false end
+    else if existsb is_revoked rs then
+      match c with Revoked s => named_ok is_revoked rs (x_chain x) s | _ => false end
+    else
+      match c with Unknown s => named_ok (fun r => negb (is_ok r)) rs (x_chain x) s | _ => false end.
+
+Definition xcalls_ok (x : xinput) (cs : list xcall) : bool :=
+  match x_val x with
+  | 0%N | 4%N => match cs with [] => true | _ => false end
+  | v => match cs with
+         | [k] => (xk_which k =? (if (v =? 2)%N then 2 else 1))%N
+                  && list_eqb String.eqb (xk_chain k) (x_chain x)
+                  && optz_eqb (xk_time k) (if x_sa x then x_stime x else None)
+         | _ => false
+         end
+  end.
+
+Definition xspec_ok (x : xinput) (o : xobs) : bool :=
+  negb (xo_panic o) &&
+  match x_action x with
+  | Skip =>
+      match xo_calls o, xo_result o with [], None => negb (xo_rejected o) | _, _ => false end
+  | a =>
+      xcalls_ok x (xo_calls o)
+      && match xo_result o with
+         | None => false
+         | Some c => xresult_ok x c && Bool.eqb (xo_rejected o) (enforce_fails a c)
+         end
+  end.
+
+Record xcase := mk_xcase { xc_id : N; xc_in : xinput; xc_obs : xobs }.
+
+(* correspondence on EVERY input (also outside the contract); the property oracle under the contract *)
+Definition xrun (cs : list xcase) : list (N * N * N) :=
+  run_cases xc_id
+    (fun c => xobs_eqb (xmodel (xc_in c)) (xc_obs c))
+    (fun c => negb (xwf (xc_in c)) || xspec_ok (xc_in c) (xc_obs c))
+    (fun _ => 0%N) cs.
